@@ -760,6 +760,56 @@ func ruleNameResolution(c *Ctx, r *Repo, rule string) {
 		okType := strings.Contains(s, "m.AddName(v.TypeString())")
 		okName := strings.Contains(s, "m.SuggestName(varName(")
 		c.Check(okType && okName, rule, "AddVar|names", r.Pos(fd.Pos()), "type string registered, initial name suggested against the scope", "AddVar does not register the variable's type string as a visible name and pick the initial name with SuggestName")
+		// every variable AddVar hands out is entered into the scope's list, which is what collision resolution
+		// walks (mechanical-mutation finding: without the append no parameter is ever renamed)
+		paths, _ := enumerateFunc(tp.TypesInfo, fd)
+		okVars := len(paths) > 0
+		nOK := 0
+		for _, p := range paths {
+			if p.Exit != "return" || len(p.Ret) != 2 || p.Ret[1] != "nil" {
+				continue
+			}
+			nOK++
+			if hasStep(p, "store RECV.vars = builtin.append(RECV.vars, ") != 1 {
+				okVars = false
+			}
+		}
+		c.Check(okVars && nOK > 0, rule, "AddVar|listed", r.Pos(fd.Pos()), "every variable handed out is listed in the scope", "AddVar returns a variable without entering it into the scope's variable list: ResolveVariableNameCollisions never sees it, so a parameter that collides with a qualifier or another name keeps its name")
+		// the replacement type is the object found: the search leaves the loop with the package whose scope has it
+		for _, g := range familyOf(tp, fd) {
+			ast.Inspect(g.Body, func(n ast.Node) bool {
+				rs, ok := n.(*ast.RangeStmt)
+				if !ok || !typeIs(tp.TypesInfo.TypeOf(rs.X), "[]*golang.org/x/tools/go/packages.Package") {
+					return true
+				}
+				d := newDT(tp.TypesInfo)
+				st := &dtPath{env: map[types.Object]string{}}
+				if v, ok := rs.Value.(*ast.Ident); ok && tp.TypesInfo.Defs[v] != nil {
+					st.env[tp.TypesInfo.Defs[v]] = "PKG"
+				}
+				d.paths = nil
+				d.stmts(st, rs.Body.List, func(p *dtPath) { d.finish(p, "end") })
+				okLoop := len(d.paths) > 0
+				for _, p := range d.paths {
+					found, known := false, false
+					for _, a := range p.Atoms {
+						if strings.Contains(a.Expr, ".Lookup<(go/types.Scope).Lookup>(") && strings.HasSuffix(a.Expr, " == nil") {
+							found, known = !a.Val, true
+						}
+					}
+					switch {
+					case !known:
+						okLoop = false
+					case found && p.Exit != "break" && p.Exit != "return":
+						okLoop = false
+					case !found && (p.Exit == "break" || p.Exit == "return"):
+						okLoop = false
+					}
+				}
+				c.Check(okLoop, rule, "AddVar|replacement-search", r.Pos(rs.Pos()), "the search stops at the package that declares the replacement type", "the search for the replacement type among the loaded packages does not stop exactly at the package whose scope has it (a found object is passed over, or the search stops without one): the nil package or object is dereferenced next")
+				return true
+			})
+		}
 	}
 }
 
@@ -1119,6 +1169,82 @@ func ruleSmallAccessors(c *Ctx, r *Repo, rule string) {
 			}
 		}
 		c.Check(ok, rule, "Method.ReturnStatement|table", r.Pos(fd.Pos()), "\"return\" iff the method has results", "Method.ReturnStatement: "+why)
+	}
+	// HasParams / HasReturns: true exactly for a non-empty list (evaluated for 0..2 elements)
+	for _, row := range []struct{ fn, list string }{{"Method.HasParams", "RECV.Params"}, {"Method.HasReturns", "RECV.Returns"}} {
+		fd := FuncDecl(tp, row.fn)
+		if fd == nil {
+			continue
+		}
+		d := newDT(info)
+		d.boolReturns = true
+		d.paths = nil
+		d.stmts(seedEnv(d, fd), fd.Body.List, func(p *dtPath) { d.finish(p, "end") })
+		ok := len(d.paths) > 0
+		for n := 0; n <= 2; n++ {
+			hit := 0
+			for _, p := range d.paths {
+				cons := true
+				for _, a := range p.Atoms {
+					if v, known := lenAtom(a.Expr, "builtin.len("+row.list+")", n); !known {
+						ok = false
+					} else if v != a.Val {
+						cons = false
+					}
+				}
+				if !cons {
+					continue
+				}
+				hit++
+				want := "false"
+				if n > 0 {
+					want = "true"
+				}
+				if p.Exit != "return" || len(p.Ret) != 1 || p.Ret[0] != want {
+					ok = false
+				}
+			}
+			if hit != 1 {
+				ok = false
+			}
+		}
+		c.Check(ok, rule, row.fn+"|table", r.Pos(fd.Pos()), "true iff the list is non-empty", row.fn+" is not 'the list has at least one element'")
+	}
+	// ReturnsError: some result's type string is "error"
+	if fd := FuncDecl(tp, "Method.ReturnsError"); fd != nil {
+		ok := false
+		var rs *ast.RangeStmt
+		for _, st := range fd.Body.List {
+			if x, isR := st.(*ast.RangeStmt); isR && rs == nil {
+				rs = x
+			}
+		}
+		if rs != nil && newFuncCanon(info, fd).E(rs.X) == "RECV.Returns" {
+			d := newDT(info)
+			stt := seedEnv(d, fd)
+			if v, isID := rs.Value.(*ast.Ident); isID && info.Defs[v] != nil {
+				stt.env[info.Defs[v]] = "P"
+			}
+			d.paths = nil
+			d.stmts(stt, rs.Body.List, func(p *dtPath) { d.finish(p, "end") })
+			ok = len(d.paths) == 2
+			for _, p := range d.paths {
+				isErr, known := false, false
+				for _, a := range p.Atoms {
+					if strings.HasPrefix(a.Expr, "P.") && strings.Contains(a.Expr, "TypeString<") && strings.HasSuffix(a.Expr, `() == "error"`) {
+						isErr, known = a.Val, true
+					}
+				}
+				if !known || isErr && !(p.Exit == "return" && len(p.Ret) == 1 && p.Ret[0] == "true") || !isErr && p.Exit == "return" {
+					ok = false
+				}
+			}
+			// after the loop: false
+			if last, isRet := fd.Body.List[len(fd.Body.List)-1].(*ast.ReturnStmt); !isRet || len(last.Results) != 1 || types.ExprString(last.Results[0]) != "false" {
+				ok = false
+			}
+		}
+		c.Check(ok, rule, "Method.ReturnsError|table", r.Pos(fd.Pos()), "true iff some result's type is error", "Method.ReturnsError is not 'some result has the type string \"error\"'")
 	}
 	if fd := FuncDecl(tp, "Method.AcceptsContext"); fd == nil {
 		c.Fail(rule, "Method.AcceptsContext|missing", "template/method.go", "Method.AcceptsContext not found")
